@@ -93,6 +93,7 @@ type decodeResult struct {
 	err      error
 	panicked interface{}
 	alloc    uint64
+	simOps   int // channel operations / task starts the simulator carried out meanwhile
 }
 
 // guarded runs f under the statement budget and the allocation meter and
@@ -100,6 +101,7 @@ type decodeResult struct {
 func guarded(inputLen int, measure bool, f func() ([]byte, error)) (res decodeResult) {
 	zsim.SetBudget(int64(4000*(inputLen+64)) + 200000)
 	var before uint64
+	ops0, ov0 := zsim.S.SimOps, zsim.Overhead
 	if measure {
 		before = heapAllocs()
 	}
@@ -107,6 +109,10 @@ func guarded(inputLen int, measure bool, f func() ([]byte, error)) (res decodeRe
 		zsim.SetBudget(0)
 		if measure {
 			res.alloc = heapAllocs() - before
+			if ov := zsim.Overhead - ov0; ov < res.alloc {
+				res.alloc -= ov // the simulator's own record and trace growing
+			}
+			res.simOps = zsim.S.SimOps - ops0
 		}
 		if p := recover(); p != nil {
 			res.panicked = p
@@ -376,8 +382,10 @@ func totalityViolation(r decodeResult, input []byte, what string) *zsim.Violatio
 		}
 		return viol("C17.panic", "%s: decoding %d bytes panicked: %v; input %s", what, len(input), r.panicked, hexClip(input, 120))
 	}
-	if limit := uint64(256*len(input)) + 1<<20; r.alloc > limit {
-		return viol("C17.allocation", "%s: decoding %d bytes allocated %d bytes (limit 256 x input + 1 MiB); input %s", what, len(input), r.alloc, hexClip(input, 120))
+	// the meter also sees what the simulator allocates on behalf of the decoder when that
+	// uses channels or goroutines (waiter records, boxed values: well under 2 KiB each)
+	if limit := uint64(256*len(input)) + 1<<20 + uint64(r.simOps)*2048; r.alloc > limit {
+		return viol("C17.allocation", "%s: decoding %d bytes allocated %d bytes (limit 256 x input + 1 MiB, plus 2 KiB for each of the %d channel operations the simulator emulated); input %s", what, len(input), r.alloc, r.simOps, hexClip(input, 120))
 	}
 	return nil
 }
